@@ -95,6 +95,7 @@ type tkey struct {
 // TB is a term builder (one per worker; not safe for concurrent use).
 type TB struct {
 	tab   map[tkey]*Term
+	truncOf map[int32][]*Term
 	terms []*Term
 	True  *Term
 	False *Term
@@ -102,7 +103,7 @@ type TB struct {
 }
 
 func NewTB() *TB {
-	tb := &TB{tab: make(map[tkey]*Term, 1<<16)}
+	tb := &TB{tab: make(map[tkey]*Term, 1<<16), truncOf: map[int32][]*Term{}}
 	tb.False = tb.mk(OConst, 0, nil, nil, nil, 0, "")
 	tb.True = tb.mk(OConst, 0, nil, nil, nil, 1, "")
 	return tb
@@ -157,8 +158,12 @@ func (tb *TB) SConstT(w uint8, c int64) *Term { return tb.Const(w, uint64(c)) }
 // given view.  The range is asserted to the solver whenever the symbol is
 // declared, so interval reasoning based on it is sound.
 func (tb *TB) Sym(name string, w uint8, signed bool, lo, hi int64) *Term {
-	k := tkey{op: OSym, w: w, a0: -1, a1: -1, a2: -1, name: name}
-	if t, ok := tb.tab[k]; ok {
+	sg := uint64(0)
+	if signed {
+		sg = 1
+	}
+	k := tkey{op: OSym, w: w, a0: int32(uint32(lo)), a1: int32(uint32(hi)), a2: int32(uint32(uint64(lo)>>32) ^ uint32(uint64(hi)>>32)<<1), c: sg, name: name}
+	if t, ok := tb.tab[k]; ok && t.op == OSym {
 		return t
 	}
 	t := &Term{id: int32(len(tb.terms)), op: OSym, w: w, name: name, size: 1}
@@ -696,6 +701,13 @@ func (tb *TB) Bin(op Op, a, b *Term) *Term {
 		if b.op == OConst && a.op == OAdd && a.a[1].op == OConst {
 			return tb.Bin(OAdd, a.a[0], tb.Const(w, a.a[1].c+b.c))
 		}
+		// (x - t) + t  and  t + (x - t)
+		if a.op == OSub && a.a[1] == b {
+			return a.a[0]
+		}
+		if b.op == OSub && b.a[1] == a {
+			return b.a[0]
+		}
 		if b.op != OConst && a.id > b.id {
 			a, b = b, a
 		}
@@ -747,6 +759,11 @@ func (tb *TB) Bin(op Op, a, b *Term) *Term {
 			// mask covers the whole range
 			if b.c&(b.c+1) == 0 && a.uhi <= b.c {
 				return a
+			}
+			// low mask 2^k-1: canonicalise to zext(extract)
+			if b.c&(b.c+1) == 0 {
+				k := uint8(bits.Len64(b.c))
+				return tb.Zext(tb.Extract(a, 0, k), w)
 			}
 		}
 		if a == b {
@@ -886,6 +903,29 @@ func (tb *TB) Zext(a *Term, w uint8) *Term {
 	if a.op == OZext {
 		return tb.Zext(a.a[0], w)
 	}
+	for _, o := range tb.truncOf[a.id] {
+		if o.w == w && o.uhi <= mask(a.w) {
+			return o
+		}
+	}
+	// zext(trunc(x)) == x when x already fits the narrow unsigned range
+	if a.op == OExtract && a.c == 0 && a.a[0].w == w && a.a[0].uhi <= mask(a.w) {
+		return a.a[0]
+	}
+	if a.op == OExtract && a.c == 0 && a.a[0].w > w && a.a[0].uhi <= mask(a.w) {
+		return tb.Extract(a.a[0], 0, w)
+	}
+	// push zero extension towards the leaves (canonical form)
+	switch a.op {
+	case OOr, OAnd, OXor:
+		return tb.Bin(a.op, tb.Zext(a.a[0], w), tb.Zext(a.a[1], w))
+	case OShl:
+		if k := a.a[1]; k.op == OConst && k.c < uint64(a.w) && a.a[0].uhi <= mask(a.w)>>k.c {
+			return tb.Bin(OShl, tb.Zext(a.a[0], w), tb.Const(w, k.c))
+		}
+	case OIte:
+		return tb.Ite(a.a[0], tb.Zext(a.a[1], w), tb.Zext(a.a[2], w))
+	}
 	return tb.mk(OZext, w, a, nil, nil, 0, "")
 }
 
@@ -905,36 +945,104 @@ func (tb *TB) Sext(a *Term, w uint8) *Term {
 	if a.op == OSext {
 		return tb.Sext(a.a[0], w)
 	}
+	for _, o := range tb.truncOf[a.id] {
+		if o.w == w && fitsS(o.slo, a.w) && fitsS(o.shi, a.w) {
+			return o
+		}
+	}
+	// sext(trunc(x)) == x when x already fits the narrow signed range
+	if a.op == OExtract && a.c == 0 && a.a[0].w == w && fitsS(a.a[0].slo, a.w) && fitsS(a.a[0].shi, a.w) {
+		return a.a[0]
+	}
 	return tb.mk(OSext, w, a, nil, nil, 0, "")
 }
 
 // Extract returns bits [lo+w-1 : lo] of a.
 func (tb *TB) Extract(a *Term, lo uint, w uint8) *Term {
+	r := tb.extract1(a, lo, w)
+	if lo == 0 && r.op != OConst && r != a && a.w > w {
+		// remember that r == trunc(a): lets sext/zext(r) fold back to a
+		// when a already fits the narrow range.
+		os := tb.truncOf[r.id]
+		if len(os) < 4 {
+			dup := false
+			for _, o := range os {
+				if o == a {
+					dup = true
+				}
+			}
+			if !dup {
+				tb.truncOf[r.id] = append(os, a)
+			}
+		}
+	}
+	return r
+}
+
+func (tb *TB) extract1(a *Term, lo uint, w uint8) *Term {
 	if lo == 0 && a.w == w {
 		return a
 	}
 	if a.op == OConst {
 		return tb.Const(w, a.c>>lo)
 	}
+	if lo > 0 && lo < 64 && a.uhi < uint64(1)<<lo {
+		return tb.Const(w, 0)
+	}
+	switch a.op {
+	case OExtract:
+		return tb.Extract(a.a[0], lo+uint(a.c), w)
+	case OIte:
+		return tb.Ite(a.a[0], tb.Extract(a.a[1], lo, w), tb.Extract(a.a[2], lo, w))
+	case OLShr, OAShr:
+		// bits of a shifted value that do not reach the fill region
+		if k := a.a[1]; k.op == OConst && uint(k.c)+lo+uint(w) <= uint(a.w) {
+			return tb.Extract(a.a[0], lo+uint(k.c), w)
+		}
+	case OShl:
+		if k := a.a[1]; k.op == OConst && uint(k.c) <= lo {
+			return tb.Extract(a.a[0], lo-uint(k.c), w)
+		}
+		if k := a.a[1]; k.op == OConst && lo+uint(w) <= uint(k.c) {
+			return tb.Const(w, 0)
+		}
+		if k := a.a[1]; k.op == OConst && lo == 0 && uint(k.c) < uint(w) {
+			return tb.Bin(OShl, tb.Extract(a.a[0], 0, w), tb.Const(w, k.c))
+		}
+	case OZext, OSext:
+		in := a.a[0]
+		if lo+uint(w) <= uint(in.w) {
+			return tb.Extract(in, lo, w)
+		}
+		if lo == 0 {
+			if a.op == OZext {
+				return tb.Zext(in, w)
+			}
+			return tb.Sext(in, w)
+		}
+		if a.op == OZext && lo >= uint(in.w) {
+			return tb.Const(w, 0)
+		}
+	}
 	if lo == 0 {
-		if (a.op == OZext || a.op == OSext) && a.a[0].w >= w {
-			return tb.Extract(a.a[0], 0, w)
-		}
-		if a.op == OZext && a.a[0].w < w {
-			return tb.Zext(a.a[0], w)
-		}
-		if a.op == OSext && a.a[0].w < w {
-			return tb.Sext(a.a[0], w)
-		}
-		if a.op == OExtract && a.c == 0 {
-			return tb.Extract(a.a[0], 0, w)
-		}
 		// push truncation through wrap-around arithmetic: trunc(x op y) = trunc(x) op trunc(y)
 		switch a.op {
 		case OAdd, OSub, OMul, OAnd, OOr, OXor:
-			if a.size < 64 {
-				return tb.Bin(a.op, tb.Extract(a.a[0], 0, w), tb.Extract(a.a[1], 0, w))
+			return tb.Bin(a.op, tb.Extract(a.a[0], 0, w), tb.Extract(a.a[1], 0, w))
+		case ONot:
+			return tb.BNot(tb.Extract(a.a[0], 0, w))
+		case ONeg:
+			return tb.Neg(tb.Extract(a.a[0], 0, w))
+		}
+	} else {
+		switch a.op {
+		case OAdd, OSub, OMul, ONeg:
+			// only the low lo+w bits matter
+			if lo+uint(w) < uint(a.w) {
+				return tb.Extract(tb.Extract(a, 0, uint8(lo+uint(w))), lo, w)
 			}
+		case OAnd, OOr, OXor:
+			return tb.Bin(a.op, tb.Extract(a.a[0], lo, w), tb.Extract(a.a[1], lo, w))
 		}
 	}
 	return tb.mk(OExtract, w, a, nil, nil, uint64(lo), "")
@@ -1089,7 +1197,7 @@ func (t *Term) str(sb *strings.Builder, d int) {
 		sb.WriteString(t.name)
 		return
 	}
-	if d > 6 {
+	if d > 14 {
 		fmt.Fprintf(sb, "t%d", t.id)
 		return
 	}
